@@ -75,8 +75,17 @@ func config(tier string) *opspace.Config {
 	cfg := &opspace.Config{
 		Property: prop,
 		Drivers:  []string{"memory", "secrets"},
-		Inits:    []string{"empty"},
-		MakeInit: func(drv, _ string) *hx.World { return hx.NewWorld(drv) },
+		Inits:    []string{"empty", "failed-rollback"},
+		MakeInit: func(drv, init string) *hx.World {
+			w := hx.NewWorld(drv)
+			if init == "failed-rollback" {
+				// install P, upgrade to Q, rollback rejected by the cluster: rev2 superseded, rev3 failed, nothing deployed
+				w.Exec(hx.Op{Kind: "install", Release: "r", Chart: chartP}, nil)
+				w.Exec(hx.Op{Kind: "upgrade", Release: "r", Chart: chartQ}, nil)
+				w.Exec(hx.Op{Kind: "rollback", Release: "r"}, &sim.Fault{Label: "PATCH configmaps/a", Occurrence: 0, Kind: "reject"})
+			}
+			return w
+		},
 		Alphabet: func(_ *hx.World, _ []*rspb.Release, _ []opspace.Step) []opspace.Step {
 			var out []opspace.Step
 			for _, o := range ops {
@@ -84,7 +93,13 @@ func config(tier string) *opspace.Config {
 			}
 			return out
 		},
-		MaxDepth:  3,
+		MaxDepth: 3,
+		DepthFor: func(init string) int {
+			if init == "failed-rollback" {
+				return 2
+			}
+			return 0
+		},
 		MaxFaulty: 2,
 		FaultKinds: func(_ string, op hx.Op, call sim.Call) []string {
 			if op.Kind == "uninstall" {
